@@ -11,7 +11,11 @@ CMP_SWAP = {ast.Lt: ast.LtE, ast.LtE: ast.Lt, ast.Gt: ast.GtE, ast.GtE: ast.Gt, 
 def points(fnode):
     """Enumerate mutation points as (kind, index) in AST walk order (docstrings/annotations excluded)."""
     pts = []
+    # parameter defaults are not part of the body a contract speaks about (the contract quantifies over every argument value)
+    in_defaults = {id(x) for d in fnode.args.defaults + [k for k in fnode.args.kw_defaults if k is not None] for x in ast.walk(d)}
     for i, n in enumerate(ast.walk(fnode)):
+        if id(n) in in_defaults:
+            continue
         if isinstance(n, ast.Compare):
             for j, op in enumerate(n.ops):
                 if type(op) in CMP_SWAP:
@@ -44,8 +48,7 @@ def apply(fnode, point):
         n.op = ast.Or() if isinstance(n.op, ast.And) else ast.And()
         desc = f'line {n.lineno}: {old} -> {type(n.op).__name__}'
     elif kind == 'not':
-        parent_fix = ast.copy_location(ast.UnaryOp(op=ast.Not(), operand=ast.UnaryOp(op=ast.Not(), operand=n.operand)), n)
-        n.operand = parent_fix
+        n.operand = ast.copy_location(ast.UnaryOp(op=ast.Not(), operand=n.operand), n)      # not x  ->  not (not x)
         desc = f'line {n.lineno}: dropped a not'
     elif kind == 'const':
         desc = f'line {n.lineno}: constant {n.value} -> {n.value + 1}'
